@@ -86,12 +86,24 @@ func profileByName(name string) Profile {
 		p.W["badname"] = 1
 		p.MaxWrite = 30000
 	case "unstablemix": // C07: three stability levels on several files, COMMITs, metadata operations
-		p.W = map[string]int{"write": 40, "commit": 10, "create": 6, "truncate": 5, "read": 6, "rename": 3, "remove": 3, "mkdir": 2, "getattr": 2, "bigwrite": 1}
+		p.W = map[string]int{"write": 40, "commit": 10, "create": 6, "truncate": 5, "read": 6, "rename": 3, "remove": 3, "mkdir": 2, "getattr": 2, "bigwrite": 1, "abortcommit": 8}
 		p.MaxWrite = 12000
 	case "lockorder": // C06: children with smaller and larger numbers than their parents, all multi-lock paths
 		p.W = map[string]int{"create": 12, "mkdir": 12, "symlink": 3, "remove": 10, "rmdir": 8, "rename": 22, "lookup": 14,
 			"readdirplus": 6, "readdir": 2, "restart": 6, "stale": 10, "write": 3, "truncate": 2, "getattr": 2, "badname": 2}
 		p.Steer["dirmove"] = true
+	case "twin": // C10: running server vs. a second server recovered from a copy of its disk
+		p.W["twin"] = 10
+		p.W["create"] = 16
+		p.W["mkdir"] = 8
+		p.W["rename"] = 10
+		p.W["remove"] = 6
+		p.W["badname"] = 4
+		p.W["stale"] = 2
+		p.W["restart"] = 1
+		p.W["settime"] = 4
+	case "manyobj": // C10: more live objects than the inode cache holds, multi-block directories
+		p.W = map[string]int{"create": 50, "mkdir": 6, "symlink": 4, "twin": 4, "lookup": 8, "rename": 8, "remove": 6, "write": 8, "getattr": 4, "badname": 3, "truncate": 3, "settime": 3}
 	case "names": // namespace heavy
 		p.W["write"] = 3
 		p.W["read"] = 2
